@@ -133,7 +133,8 @@ def render(cases: list, runtime) -> Script:
         if g["wiring"] == "i2c":
             s.add(f"lcd{k} = LCD(i2c_addr=39, cols={g['cols']}, rows={g['rows']})")
         else:
-            bl = f", backlight_pin={BL_PIN0 + k}" if g["blpin"] else ""
+            # g["blspell"]: the backlight pin spelled out by the case (e.g. "0" or "8 - 8": pin 0 is a pin like any other)
+            bl = f", backlight_pin={g.get('blspell', BL_PIN0 + k)}" if g["blpin"] else ""
             s.add(f"lcd{k} = LCD(rs=2, en=3, d4=4, d5=5, d6=6, d7=7, cols={g['cols']}, rows={g['rows']}{bl})")
     for k, case in enumerate(cases):
         n = f"lcd{k}"
@@ -190,7 +191,7 @@ class _Disp:
 def project(cases: list, events: list) -> list:
     """Per case: list of observation records (init + one per call) or None when its markers are missing."""
     disp: dict[int, _Disp] = {}
-    pin2d = {BL_PIN0 + k: k for k in range(len(cases))}
+    pin2d = {(int(eval(c["g"]["blspell"])) if "blspell" in c["g"] else BL_PIN0 + k): k for k, c in enumerate(cases)}
     out: list = [[] for _ in cases]
     stray = 0
     cur = None                  # (display, call) whose segment the next events belong to
